@@ -484,8 +484,8 @@ CALLABLES = {  # name -> (min args, max args, accepts kwargs)
 
 
 @st.composite
-def call_spec(draw):
-    name = draw(st.sampled_from(sorted(CALLABLES)))
+def call_spec(draw, only=None):
+    name = only or draw(st.sampled_from(sorted(CALLABLES)))
     lo, hi, kw = CALLABLES[name]
     n = draw(st.integers(lo, hi))
     args = [draw(st.sampled_from(ARG_VALUES)) for _ in range(n)]
@@ -493,4 +493,9 @@ def call_spec(draw):
     if kw and draw(st.booleans()):
         for key in draw(st.lists(st.sampled_from(['k1', 'k2', 'zeta']), max_size=2, unique=True)):
             kwargs[key] = draw(st.sampled_from(ARG_VALUES))
-    return {'f': name, 'args': args, 'kwargs': kwargs}
+    spec = {'f': name, 'args': args, 'kwargs': kwargs}
+    if kw and draw(st.booleans()):
+        # the instructor keeps one options dictionary and hands it to every such call as function_kwargs=
+        spec['options'] = True
+        kwargs.pop('zeta', None)
+    return spec
